@@ -431,6 +431,23 @@ def _normalise_syntax(tree):
 
     def one(st):
         """Rewrite one statement (children already normalised) into a list of statements."""
+        # `for k in ("a", "b"): BODY` (constants, a short simple body)  ->  BODY[k:="a"]; BODY[k:="b"]; k = "b"
+        if (isinstance(st, ast.For) and not st.orelse and isinstance(st.target, ast.Name) and isinstance(st.iter, (ast.Tuple, ast.List)) and 1 <= len(st.iter.elts) <= 8
+                and all(isinstance(e_, ast.Constant) for e_ in st.iter.elts) and len(st.body) <= 3
+                and not any(isinstance(x_, (ast.Break, ast.Continue, ast.FunctionDef, ast.Lambda, ast.Yield, ast.YieldFrom, ast.Return)) for b_ in st.body for x_ in ast.walk(b_))
+                and not any(isinstance(x_, ast.Name) and x_.id == st.target.id and isinstance(x_.ctx, (ast.Store, ast.Del)) for b_ in st.body for x_ in ast.walk(b_))):
+            out_ = []
+            for e_ in st.iter.elts:
+                class _K(ast.NodeTransformer):
+                    def visit_Name(self, n_):
+                        if n_.id == st.target.id and isinstance(n_.ctx, ast.Load):
+                            return ast.copy_location(ast.Constant(value=e_.value), n_)
+                        return n_
+
+                for b_ in st.body:
+                    out_ += block([_K().visit(_copy.deepcopy(b_))])
+            out_.append(ast.copy_location(ast.Assign(targets=[ast.Name(id=st.target.id, ctx=ast.Store())], value=ast.Constant(value=st.iter.elts[-1].value)), st))
+            return [ast.fix_missing_locations(x_) for x_ in out_]
         # `d.update(k1=e1, k2=e2)` / `d.update({"k1": e1})` on a local name  ->  `d["k1"] = e1; d["k2"] = e2`
         if isinstance(st, ast.Expr) and isinstance(st.value, ast.Call) and isinstance(st.value.func, ast.Attribute) and st.value.func.attr == "update" and isinstance(st.value.func.value, ast.Name):
             c_ = st.value
@@ -1041,7 +1058,8 @@ def _inline_helpers(trees):
             for cls_ in [n for n in ast.walk(tree) if isinstance(n, ast.ClassDef)]:
                 for h in [f for f in cls_.body if isinstance(f, ast.FunctionDef)]:
                     nm = h.name
-                    if nm in anchors or nm.startswith("__") or h.decorator_list:
+                    static = len(h.decorator_list) == 1 and isinstance(h.decorator_list[0], ast.Name) and h.decorator_list[0].id == "staticmethod"
+                    if nm in anchors or nm.startswith("__") or (h.decorator_list and not static):
                         continue
                     owners = method_owners.get(nm, [])
                     n_refs_here = refs.get(nm, 0)
@@ -1058,8 +1076,9 @@ def _inline_helpers(trees):
                         if any(o_ is not cls_ and (o_.name in _ancestors(cls_.name, class_defs) or cls_.name in _ancestors(o_.name, class_defs)) for o_ in owners):
                             continue
                     a = h.args
-                    if a.vararg or a.kwarg or a.posonlyargs or not a.args or a.args[0].arg != "self":
+                    if a.vararg or a.kwarg or a.posonlyargs or (not static and (not a.args or a.args[0].arg != "self")):
                         continue
+                    receivers = ("self", "cls", cls_.name) if static else ("self",)
                     if any(isinstance(x, (ast.Yield, ast.YieldFrom, ast.FunctionDef, ast.AsyncFunctionDef, ast.ClassDef, ast.Global, ast.Nonlocal, ast.Await)) and x is not h for x in ast.walk(h)):
                         continue
                     body = [s for s in h.body if not (isinstance(s, ast.Expr) and isinstance(s.value, ast.Constant) and isinstance(s.value.value, str))]
@@ -1077,11 +1096,11 @@ def _inline_helpers(trees):
                                     continue
                                 for st in blk:
                                     call = st.value if isinstance(st, (ast.Expr, ast.Return)) else (st.value if isinstance(st, ast.Assign) and len(st.targets) == 1 else None)
-                                    if isinstance(call, ast.Call) and isinstance(call.func, ast.Attribute) and call.func.attr == nm and isinstance(call.func.value, ast.Name) and call.func.value.id == "self" and not any(s_[2] is st for s_ in sites):
+                                    if isinstance(call, ast.Call) and isinstance(call.func, ast.Attribute) and call.func.attr == nm and isinstance(call.func.value, ast.Name) and call.func.value.id in receivers and not any(s_[2] is st for s_ in sites):
                                         sites.append((g, blk, st, call))
                     if len(sites) != n_refs_here:
                         continue
-                    subs = [_substitute_call(h, 1, body, rets, st, call, g, nm) for g, blk, st, call in sites]
+                    subs = [_substitute_call(h, 0 if static else 1, body, rets, st, call, g, nm) for g, blk, st, call in sites]
                     if any(s_ is None for s_ in subs):
                         continue
                     for (g, blk, st, call), (pre, new_body, post) in zip(sites, subs):
@@ -1221,23 +1240,31 @@ def _inline_expression_helpers(trees):
         if len(ds) != 1 or nm in anchors or not nm.startswith("_") or nm.startswith("__"):
             continue
         t, c, h = ds[0]
-        if h.decorator_list or h.args.vararg or h.args.kwarg or h.args.posonlyargs or h.args.kwonlyargs:
+        static = isinstance(c, ast.ClassDef) and len(h.decorator_list) == 1 and isinstance(h.decorator_list[0], ast.Name) and h.decorator_list[0].id == "staticmethod"
+        if (h.decorator_list and not static) or h.args.vararg or h.args.kwarg or h.args.posonlyargs or h.args.kwonlyargs:
             continue
         body = [s for s in h.body if not (isinstance(s, ast.Expr) and isinstance(s.value, ast.Constant) and isinstance(s.value.value, str))]
         if len(body) != 1 or not isinstance(body[0], ast.Return) or body[0].value is None:
             continue
         is_method = isinstance(c, ast.ClassDef)
-        params = [a.arg for a in h.args.args][1 if is_method else 0 :]
-        if is_method and (not h.args.args or h.args.args[0].arg != "self"):
+        params = [a.arg for a in h.args.args][1 if (is_method and not static) else 0 :]
+        if is_method and not static and (not h.args.args or h.args.args[0].arg != "self"):
             continue
         expr = body[0].value
         if any(isinstance(x, (ast.Lambda, ast.ListComp, ast.SetComp, ast.DictComp, ast.GeneratorExp, ast.Yield, ast.Await, ast.NamedExpr)) for x in ast.walk(expr)):
             continue
         scope = c if is_method else t
         sites = []
-        for n in ast.walk(scope):
-            if isinstance(n, ast.Call) and ((is_method and isinstance(n.func, ast.Attribute) and n.func.attr == nm and isinstance(n.func.value, ast.Name) and n.func.value.id == "self") or (not is_method and isinstance(n.func, ast.Name) and n.func.id == nm)):
-                sites.append(n)
+        if static:
+            # a static helper is reachable through self / cls inside its class family and through the class name anywhere
+            scope = ast.Module(body=list(trees), type_ignores=[])
+            for n in [x for t_ in trees for x in ast.walk(t_)]:
+                if isinstance(n, ast.Call) and isinstance(n.func, ast.Attribute) and n.func.attr == nm and isinstance(n.func.value, ast.Name) and n.func.value.id in ("self", "cls", c.name):
+                    sites.append(n)
+        else:
+            for n in ast.walk(scope):
+                if isinstance(n, ast.Call) and ((is_method and isinstance(n.func, ast.Attribute) and n.func.attr == nm and isinstance(n.func.value, ast.Name) and n.func.value.id == "self") or (not is_method and isinstance(n.func, ast.Name) and n.func.id == nm)):
+                    sites.append(n)
         if not sites or len(sites) > 6 or refs.get(nm, 0) != len(sites):
             continue
         if any(x is s for s in sites for x in ast.walk(h)):
@@ -1267,7 +1294,7 @@ def _inline_expression_helpers(trees):
         if not ok:
             continue
         parent = {}
-        for n in ast.walk(scope):
+        for n in ([x for t_ in trees for x in ast.walk(t_)] if static else ast.walk(scope)):
             for fld, v in ast.iter_fields(n):
                 if isinstance(v, list):
                     for i, x in enumerate(v):
@@ -1289,7 +1316,8 @@ def _inline_expression_helpers(trees):
             else:
                 getattr(par, fld)[i] = new
         (c.body if is_method else t.body).remove(h)
-        ast.fix_missing_locations(t)
+        for t_ in (trees if static else [t]):
+            ast.fix_missing_locations(t_)
 
 
 def _inline_index_properties(trees):
